@@ -22,3 +22,13 @@ Theorem C03_listed_by_both : forall n fs c i, Forall (in_range n) fs -> c < n ->
     (if is_left fs i c then 1 else 0) + (if is_unshifted_right fs i c then 1 else 0).
 Proof. exact listed_iff. Qed.
 Print Assumptions C03_listed_by_both.
+
+(* ---- reciprocity of a shared face, from the converse of C01: a vertex of cell i that lies on the bisector towards j
+   and satisfies all bisectors of i (C01_vertices_feasible_any_dim) is equidistant from i and j and at least as close to j
+   as to every other site: the vertices of the face i -> j lie in the nearest-generator region of j as well *)
+From MV Require Import Model.Cycle Model.CellExact Proofs.CellProofs Proofs.HullProofs Proofs.SharedFace.
+Theorem C03_face_vertex_in_both_regions : forall g sj sites p,
+  (forall s, In s sites -> closer g s p) -> lin (bisector g sj) p = 0 ->
+  hdist2 (site_pos sj) p = hdist2 g p /\ forall s, In s sites -> hdist2 (site_pos sj) p <= hdist2 (site_pos s) p.
+Proof. exact face_vertex_in_both_regions. Qed.
+Print Assumptions C03_face_vertex_in_both_regions.
